@@ -1,5 +1,6 @@
 import Driver.Util
 import MpcVerif.Model.Sha2pc
+import MpcVerif.Model.Sha2pcProc
 import Std.Data.HashMap
 
 /-!
@@ -20,6 +21,13 @@ print the canonical outcome line.
   encGS <curve> <sid> <cn-hex|-> <sc> <ax> <ay> <ix> <iy> -> `ok <hex>` | `err`
   cfull <numWires> <nIn> <nOut> <gates>  -> stores the circuit: `cfull gates=<n> wf=<0|1> outdef=<0|1>`
   ceval <a-hex> <b-hex>                  -> `<digest-hex>` (Lean `Circuit.compute` on the stored circuit)
+  hist <k> <refs> <schedule>             a HISTORY of k sessions in one process (Model/Sha2pcProc.lean):
+        refs     = k groups separated by `|`, each `m1,gs,m2,es,m3,digest`: the tags (deep hashes) of the
+                   values the session produces when it runs alone -- the model's round functions as a table
+        schedule = events separated by `,`: `<i>.g1` `<i>.e2<x>` `<i>.g3<x><y>` `<i>.e4<x><y>`, x,y in m|b
+                   (input consumed in memory | through bytes)
+        -> `hist <status>/<state>;...` one entry per event: status ok|err|panic|off and the whole process
+           state after the event (`Proc.step`): sessions separated by `|`, six slots each, `-` = empty
 
 edits: `-` or a comma separated list, applied left to right:
   t<N> truncate to N bytes | a<hex> append | x<off>.<hh> xor one byte |
@@ -251,6 +259,76 @@ def outcome {α : Type} (input : ByteArray) (r : Res α) (dump : α → String) 
     | .error => s!"ok {d} canon=0 re=err"
     | .panic => s!"ok {d} canon=0 re=panic"
 
+/-! ### histories (Model/Sha2pcProc.lean on tags) -/
+
+abbrev tagTy : Ty := { M1 := String, GS := String, M2 := String, ES := String, M3 := String, D := String }
+
+/-- The rounds of one session as the table of the values its isolated run
+produced: a round returns the recorded value when it is given the recorded
+inputs.  The trips through bytes are the identity on tags (decode ∘ encode is
+compared on real payloads by the `dec` ops). -/
+def tableRounds (ref : Array String) : Rounds tagTy :=
+  let g (i : Nat) : String := ref.getD i ""
+  { r1 := (g 0, g 1)
+    r2 := fun m1 => if m1 == g 0 then .ok (g 2, g 3) else .error
+    r3 := fun gs m2 => if gs == g 1 && m2 == g 2 then .ok (g 4) else .error
+    r4 := fun es m3 => if es == g 3 && m3 == g 4 then .ok (g 5) else .error
+    t1 := .ok, tg := .ok, t2 := .ok, te := .ok, t3 := .ok }
+
+def parseMode (c : Char) : Option Bool :=
+  match c with
+  | 'm' => some false
+  | 'b' => some true
+  | _ => none
+
+def parseAct (s : String) : Option Act :=
+  match s.toList with
+  | ['g', '1'] => some .g1
+  | ['e', '2', x] => (parseMode x).map .e2
+  | ['g', '3', x, y] => do
+    let x ← parseMode x
+    let y ← parseMode y
+    pure (.g3 x y)
+  | ['e', '4', x, y] => do
+    let x ← parseMode x
+    let y ← parseMode y
+    pure (.e4 x y)
+  | _ => none
+
+def parseEvent (s : String) : Option (Nat × Act) :=
+  match s.splitOn "." with
+  | [i, a] => do
+    let i ← i.toNat?
+    let a ← parseAct a
+    pure (i, a)
+  | _ => none
+
+def sessStr (s : Sess tagTy) : String :=
+  ",".intercalate ([s.m1, s.gs, s.m2, s.es, s.m3, s.out].map fun o => o.getD "-")
+
+def procStr (k : Nat) (st : Proc tagTy) : String :=
+  "|".intercalate ((List.range k).map fun i => sessStr (st i))
+
+def statusStr : Option (Res (Sess tagTy)) → String
+  | none => "off"
+  | some (.ok _) => "ok"
+  | some .error => "err"
+  | some .panic => "panic"
+
+/-- Runs the history event by event with `Proc.step`; after every event the
+status of the step and the whole process state. -/
+def runHist (k : Nat) (refs : Array (Array String)) (sched : List (Nat × Act)) : String :=
+  let cfg : Cfg tagTy := fun i => tableRounds (refs.getD i #[])
+  let init : Proc tagTy := fun _ => {}
+  let (_, outs) := sched.foldl (init := (init, (#[] : Array String))) fun (st, outs) e =>
+    let status := statusStr ((st e.1).stepRes (cfg e.1) e.2)
+    let st' := Proc.step cfg st e
+    -- materialise (the closure chain would otherwise grow with the history)
+    let arr := (Array.range (k + 1)).map fun i => st' i
+    let stm : Proc tagTy := fun j => if j < k then arr.getD j {} else st' j
+    (stm, outs.push (status ++ "/" ++ procStr k stm))
+  "hist " ++ ";".intercalate outs.toList
+
 /-! ### state and dispatch -/
 
 structure State where
@@ -350,6 +428,13 @@ def handle (st : State) (cmd : String) (args : List String) : State × String :=
       let x := bytesToBits a.toList ++ bytesToBits b.toList
       (st, bytesHex (bitsToBytes (c.compute x)))
     | _, _, _ => (st, "bad-op")
+  | "hist", [k, refs, sched] =>
+    match k.toNat?, (sched.splitOn ",").mapM parseEvent with
+    | some k, some evs =>
+      let refs := ((refs.splitOn "|").map fun r => (r.splitOn ",").toArray).toArray
+      if refs.size ≠ k ∨ refs.any (·.size ≠ 6) ∨ evs.any (fun e => e.1 ≥ k) then (st, "bad-op")
+      else (st, runHist k refs evs)
+    | _, _ => (st, "bad-op")
   | _, _ => (st, "bad-op")
 
 partial def loop (st : State) (h : IO.FS.Stream) (out : IO.FS.Stream) : IO Unit := do
